@@ -254,11 +254,16 @@ type upSession struct {
 type rpSession struct {
 	updates  map[string]*payload.Update
 	receiver *apiutils.ObjectReceiver
+	finished bool // every awaited commit has arrived and the refs were updated
 }
 
+// rsProxy forwards to the ref store handle of the request being served.
+type rsProxy struct{ ref.Store }
+
 type RefServer struct {
-	DB objects.Store
-	RS ref.Store
+	rsProxy *rsProxy
+	DB      objects.Store
+	RS      ref.Store
 	// OpenRS, when set, opens the ref store for the duration of one request
 	// (a database handle must not outlive the bubble it was opened in)
 	OpenRS func() (ref.Store, func(), error)
@@ -308,7 +313,13 @@ func (s *RefServer) ServeHTTP(w http.ResponseWriter, r *http.Request) {
 			return
 		}
 		s.RS = rs
-		defer func() { closeRS(); s.RS = nil }()
+		// sessions that live across requests (the upload-pack finder) reach the ref store through
+		// this proxy, which always points at the handle of the request being served
+		if s.rsProxy == nil {
+			s.rsProxy = &rsProxy{}
+		}
+		s.rsProxy.Store = rs
+		defer func() { closeRS(); s.RS = nil; s.rsProxy.Store = nil }()
 	}
 	switch {
 	case r.Method == http.MethodGet && r.URL.Path == "/refs/":
@@ -422,7 +433,11 @@ func (s *RefServer) uploadPack(w http.ResponseWriter, r *http.Request) {
 			return
 		}
 		sid = s.newID("up")
-		ses = &upSession{finder: apiutils.NewClosedSetsFinder(s.DB, s.RS, req.Depth), state: "negotiate"}
+		var frs ref.Store = s.RS
+		if s.rsProxy != nil {
+			frs = s.rsProxy
+		}
+		ses = &upSession{finder: apiutils.NewClosedSetsFinder(s.DB, frs, req.Depth), state: "negotiate"}
 		s.up[sid] = ses
 		http.SetCookie(w, &http.Cookie{Name: "upload-pack-session-id", Value: sid, Path: "/"})
 	} else {
@@ -613,11 +628,17 @@ func (s *RefServer) receivePack(w http.ResponseWriter, r *http.Request) {
 			httpErr(w, 400, err.Error())
 			return
 		}
+		if ses.finished {
+			// the client goes on sending until its own sender is done (it reads the report off the last
+			// reply): objects beyond the commits this side waited for are stored, the report is repeated
+			writeJSON(w, 200, &payload.ReceivePackResponse{Updates: ses.updates})
+			return
+		}
 		if !done {
 			w.WriteHeader(200)
 			return
 		}
-		delete(s.rp, sid)
+		ses.finished = true
 		// the non-fast-forward policy can only be judged once the objects are here
 		if s.Knobs.DenyNonFF {
 			for name, u := range ses.updates {
